@@ -138,6 +138,10 @@ func (sc *sealedCase) classes() []string {
 }
 
 // checkAcceptedExact asserts the C03 oracle for one sealed case under keys.
+// beforeFirstRead, when set, runs once between NewConn and the first Read of the
+// next checkAcceptedExact call.
+var beforeFirstRead func()
+
 func checkAcceptedExact(t ev.Failer, prop string, sc *sealedCase, tr *wire.Conn, keys []*hello.Key) {
 	snap := keySnapshot(keys)
 	c, err := newConn(context.Background(), tr, echKeys(keys...))
@@ -149,6 +153,10 @@ func checkAcceptedExact(t ev.Failer, prop string, sc *sealedCase, tr *wire.Conn,
 	}
 	if !c.ECHAccepted() {
 		ev.Violation(t, prop, sc.replay(), "valid ECH hello not accepted (passed through)")
+	}
+	if h := beforeFirstRead; h != nil {
+		beforeFirstRead = nil
+		h() // the server is busy with other connections between accepting this one and relaying it
 	}
 	var got []byte
 	if e := guard(func() error { var e error; got, e = readOneRecord(c); return e }); e != nil {
@@ -188,6 +196,22 @@ func TestC03(t *testing.T) {
 		withDebug = rapid.Bool().Draw(t, "with_debug")
 		defer func() { withDebug = false }()
 		tr := wire.New(sc.Record, io.EOF)
+		if rapid.IntRange(0, 2).Draw(t, "other_accepted_connection_before_first_read") == 0 {
+			sc2 := drawSealed(t, true)
+			beforeFirstRead = func() {
+				c2, err := newConn(context.Background(), wire.New(sc2.Record, io.EOF), echKeys(sc2.Key))
+				if err != nil || !c2.ECHAccepted() {
+					ev.Violation(t, "C03", sc2.replay(), "valid ECH hello of another connection not accepted: %v", err)
+				}
+				if rapid.Bool().Draw(t, "other_connection_read_first") {
+					got, e := readOneRecord(c2)
+					if want := hello.Record(22, 0x0303, sc2.WantInner); e != nil || !sameRecord(got, want) {
+						ev.Violation(t, "C03", map[string]any{"case": sc2.replay(), "got": hx(got)}, "other connection: reconstructed inner differs from its ClientHelloInner (%v)", e)
+					}
+				}
+			}
+			defer func() { beforeFirstRead = nil }()
+		}
 		checkAcceptedExact(t, "C03", sc, tr, []*hello.Key{sc.Key})
 		// the same key material serves the application's next connection just as well
 		checkAcceptedExact(t, "C03", sc, wire.New(sc.Record, io.EOF), []*hello.Key{sc.Key})
